@@ -6,6 +6,8 @@ import (
 	"go/types"
 	"strings"
 
+	"golang.org/x/tools/go/packages"
+
 	"j5verif/checker/core"
 )
 
@@ -342,4 +344,148 @@ func subPackageFileNameInjective(r *core.Run) {
 	} else {
 		o.Fail("the output name is not an injective function of the source file name (%s): two source files such as order.commands.j5s and order.queries.j5s produce the same sub-package file and the later one replaces the services of the earlier one", why)
 	}
+}
+
+// exportsOfThisPackageOnly (R-PROV/exportscope): the summary of a source file
+// lists the types the file exports; the package's resolver hands them out as
+// types of the file's package, declared in its main output file. The objects
+// inside `service` and `topic` blocks (request, response, message) are
+// generated into the sub-package files, under another proto package: they
+// must not be exported. The walk descends into those blocks, so the collector
+// has to know where it is: the visitor's ServiceFile/TopicFile callbacks
+// write state that the export function tests.
+func exportsOfThisPackageOnly(r *core.Run) {
+	r.Rule("R-PROV/exportscope", "in the j5convert function that collects a source file's exports with a sourcewalk.DefaultVisitor: the visitor sets the ServiceFile and TopicFile callbacks (and their exits), each writes a field of the collector, and the function that appends to the collector's export list tests such a field before it appends — what is generated into the service/topic sub-packages is not exported as a type of the parent package")
+	pk := r.P.Pkg(convRel)
+	if pk == nil {
+		r.Fatal("anchor: package %s not found", convRel)
+		return
+	}
+	info := pk.TypesInfo
+	// the collector: functions that build a DefaultVisitor whose Object callback reaches an append to a field named by the export list
+	var vis *ast.CompositeLit
+	var visFd *ast.FuncDecl
+	core.AllFuncDecls(pk, func(fd *ast.FuncDecl) {
+		if fd.Body == nil {
+			return
+		}
+		ast.Inspect(fd.Body, func(n ast.Node) bool {
+			cl, ok := n.(*ast.CompositeLit)
+			if !ok || !strings.HasSuffix(core.TypeStr(info.TypeOf(cl)), "sourcewalk.DefaultVisitor") {
+				return true
+			}
+			// it is the summary collector when its Object callback calls a same-package function that appends a *TypeRef
+			if ob := litKeyNamed(cl, "Object"); ob != nil {
+				ast.Inspect(ob, func(m ast.Node) bool {
+					if c, ok := m.(*ast.CallExpr); ok {
+						if fn := core.CalleeFunc(info, c); fn != nil && fn.Pkg() == pk.Types && appendsTypeRef(pk, info, fn) != nil {
+							vis, visFd = cl, fd
+						}
+					}
+					return true
+				})
+			}
+			return true
+		})
+	})
+	if vis == nil {
+		r.Fatal("R-PROV/exportscope: the summary collector (a sourcewalk.DefaultVisitor whose Object callback registers an export) was not found in %s", convRel)
+		return
+	}
+	// fields written by the sub-package callbacks
+	state := map[types.Object]bool{}
+	missing := []string{}
+	for _, key := range []string{"ServiceFile", "ServiceFileExit", "TopicFile", "TopicFileExit"} {
+		cb := litKeyNamed(vis, key)
+		wrote := false
+		if cb != nil {
+			ast.Inspect(cb, func(n ast.Node) bool {
+				var lhs []ast.Expr
+				switch x := n.(type) {
+				case *ast.AssignStmt:
+					lhs = x.Lhs
+				case *ast.IncDecStmt:
+					lhs = []ast.Expr{x.X}
+				}
+				for _, l := range lhs {
+					if s, ok := core.Unparen(l).(*ast.SelectorExpr); ok {
+						if f, ok := info.ObjectOf(s.Sel).(*types.Var); ok && f.IsField() {
+							state[f] = true
+							wrote = true
+						}
+					}
+				}
+				return true
+			})
+		}
+		if !wrote {
+			missing = append(missing, key)
+		}
+	}
+	// every function that appends an export tests that state first
+	n := 0
+	core.AllFuncDecls(pk, func(fd *ast.FuncDecl) {
+		fn, _ := info.Defs[fd.Name].(*types.Func)
+		if fn == nil || fd.Body == nil {
+			return
+		}
+		app := appendsTypeRef(pk, info, fn)
+		if app == nil {
+			return
+		}
+		n++
+		o := r.Add("R-PROV/exportscope", convRel+"."+core.FuncName(fd)+" | exports only outside service/topic files", app.Pos(), "registration of an exported type")
+		if len(missing) > 0 {
+			o.Fail("the collector in %s does not track %s: the request, response and message objects generated into the service/topic sub-packages are exported as types of the parent package — a reference to a same-named object of the package then resolves to a type that does not exist there, or to whichever file was listed last", core.FuncName(visFd), strings.Join(missing, ", "))
+			return
+		}
+		tested := false
+		ast.Inspect(fd.Body, func(m ast.Node) bool {
+			is, ok := m.(*ast.IfStmt)
+			if !ok || is.Pos() > app.Pos() {
+				return true
+			}
+			ast.Inspect(is.Cond, func(c ast.Node) bool {
+				if s, ok := c.(*ast.SelectorExpr); ok && state[info.ObjectOf(s.Sel)] {
+					tested = true
+				}
+				return true
+			})
+			return true
+		})
+		if tested {
+			o.Auto("the append is guarded by the sub-package state the visitor maintains")
+		} else {
+			o.Fail("the export is registered without a test of the sub-package state: objects of service/topic files are exported as types of the parent package")
+		}
+	})
+	if n == 0 {
+		r.Fatal("R-PROV/exportscope: no function appends to the export list")
+	}
+}
+
+// appendsTypeRef: the statement of fn that appends a *TypeRef parameter to a slice field of its receiver.
+func appendsTypeRef(pk *packages.Package, info *types.Info, fn *types.Func) ast.Node {
+	fd := core.DeclOf(pk, fn)
+	if fd == nil || fd.Body == nil || fd.Recv == nil {
+		return nil
+	}
+	var out ast.Node
+	ast.Inspect(fd.Body, func(n ast.Node) bool {
+		as, ok := n.(*ast.AssignStmt)
+		if !ok || len(as.Lhs) != 1 || len(as.Rhs) != 1 {
+			return true
+		}
+		c, ok := core.Unparen(as.Rhs[0]).(*ast.CallExpr)
+		if !ok || core.CalleeName(info, c) != "builtin.append" {
+			return true
+		}
+		if sl, ok := info.TypeOf(as.Lhs[0]).Underlying().(*types.Slice); ok && strings.HasSuffix(core.TypeStr(sl.Elem()), "j5convert.TypeRef") {
+			if _, isSel := core.Unparen(as.Lhs[0]).(*ast.SelectorExpr); isSel {
+				out = as
+			}
+		}
+		return true
+	})
+	return out
 }
